@@ -9,6 +9,7 @@ package main
 
 import (
 	"bytes"
+	"strings"
 	"crypto/aes"
 	"crypto/cipher"
 	"crypto/md5"
@@ -185,7 +186,7 @@ func gen(r *sim.Rng, tier string) *sim.Case {
 	if r.Pct(30) {
 		p["plen"] = r.N(201)
 	}
-	if r.Pct(2) || (tier == "thorough" && r.Pct(5)) {
+	if r.Pct(2) || (p["scen"] == 2 && r.Pct(6)) || (tier == "thorough" && r.Pct(5)) {
 		p["plen"] = []int{1024, 4096, 32767, 32768, 32769, 65536}[r.N(6)] + r.N(3) - 1 // crosses io.Copy's 32 KiB buffer
 		if r.Bool() {
 			p["plen"] = r.N(70000)
@@ -202,8 +203,8 @@ func gen(r *sim.Rng, tier string) *sim.Case {
 	p["variant"] = r.N(8) // bit0: plaintext as string, bit1: secret as string, bit2: aad as string
 	p["emode"] = r.Pick(6, 1, 1)
 	p["echunk"] = []int{0, 0, 1, 3, 7}[r.N(5)]
-	p["rpol"] = r.N(7)
-	p["rpol2"] = r.N(7)
+	p["rpol"] = r.N(10)
+	p["rpol2"] = r.N(10)
 	p["rfail"] = -1
 	p["wfail"] = -1
 	switch p["scen"] {
@@ -329,6 +330,25 @@ func (w *world) decStream(out io.Writer, in io.Reader) error {
 
 func (w *world) reader(data []byte, pol, failAt int, failData bool) *simReader {
 	return &simReader{data: data, pol: pol, r: sim.NewRng(w.r.U64()), failAt: failAt, failData: failData, stats: w.stats}
+}
+
+// peerReader returns the reader of a fault-free stream run: one of the simulated chunking
+// policies, or (policies 7..9) one of the standard library readers real callers pass, which
+// implement io.WriterTo and hand over everything in one Write.
+func (w *world) peerReader(data []byte, pol int) (io.Reader, func() int) {
+	switch pol {
+	case 7:
+		w.stats["stdlib_reader_with_WriteTo"]++
+		return bytes.NewReader(data), func() int { return 1 }
+	case 8:
+		w.stats["stdlib_reader_with_WriteTo"]++
+		return bytes.NewBuffer(append([]byte{}, data...)), func() int { return 1 }
+	case 9:
+		w.stats["stdlib_reader_with_WriteTo"]++
+		return strings.NewReader(string(data)), func() int { return 1 }
+	}
+	rd := w.reader(data, pol, -1, false)
+	return rd, func() int { return rd.calls }
 }
 
 func (w *world) inputsIntact(p0, s0, a0 []byte, site string) *sim.Violation {
@@ -477,7 +497,7 @@ func (w *world) streamRoundtrip() *sim.Violation {
 	p := w.c.Params
 	var mid simWriter
 	mid.failAt, mid.stats = -1, w.stats
-	rd := w.reader(w.plain, p["rpol"], -1, false)
+	rd, _ := w.peerReader(w.plain, p["rpol"])
 	if err := w.encStream(&mid, rd); err != nil {
 		return viol("roundtrip", "EncryptStreamTo", "EncryptStreamTo failed on a fault-free reader (policy %d): %v", p["rpol"], err)
 	}
@@ -492,9 +512,9 @@ func (w *world) streamRoundtrip() *sim.Violation {
 	w.dg.Add(mid.buf.Bytes())
 	var dst simWriter
 	dst.failAt, dst.stats = -1, w.stats
-	rd2 := w.reader(mid.buf.Bytes(), p["rpol2"], -1, false)
+	rd2, calls2 := w.peerReader(mid.buf.Bytes(), p["rpol2"])
 	if err := w.decStream(&dst, rd2); err != nil {
-		return viol("roundtrip", "DecryptStreamTo", "DecryptStreamTo failed on a fault-free reader that splits the data (policy %d, %d reads): %v", p["rpol2"], rd2.calls, err)
+		return viol("roundtrip", "DecryptStreamTo", "DecryptStreamTo failed on a fault-free reader that splits the data (policy %d, %d reads): %v", p["rpol2"], calls2(), err)
 	}
 	if !bytes.Equal(dst.buf.Bytes(), w.plain) {
 		return viol("roundtrip", "DecryptStreamTo", "DecryptStreamTo(EncryptStreamTo(p)) != p (reader policies %d/%d)", p["rpol"], p["rpol2"])
